@@ -78,6 +78,17 @@ def gen_pe(rng):
     desc["unaligned"] = rng.random() < 0.35
     desc["vsizes"] = [rng.choice((None, None, 0x10, 0x234, 0x1000, 0x1800, 0x3000)) for _ in desc["secs"]]
     desc["imports"] = [(n, fs[:4], ex) for n, fs, ex in desc["imports"]]
+    if desc["imports"] and rng.random() < 0.3:
+        # the same function of the same library behind more than one slot: listed twice, or through a second descriptor whose
+        # library name differs by case only
+        k = rng.randrange(len(desc["imports"]))
+        n, fs, ex = desc["imports"][k]
+        if rng.random() < 0.5:
+            desc["imports"][k] = (n, fs + [rng.choice(fs)], ex)
+        else:
+            n2 = n.upper() if n.upper() != n else n.lower()
+            if n2 != n:
+                desc["imports"].append((n2, [rng.choice(fs)] + [f for f in ("Sleep",) if rng.random() < 0.5], rng.random() < 0.4))
     return desc
 
 
